@@ -34,31 +34,38 @@ CONSTANTS Keys,        \* set of keys (sequences of bytes 0..255)
           MaxLevels,   \* candidate values of maxTrieLevelInMemory (>= 1)
           RichKeys,    \* keys written with every value of Vals; the others only with the smallest one (bounds only)
           MaxCommits,  \* bound on the number of distinct committed roots (model checking only)
+          Acts,        \* names of the actions enabled in Next (bounds only: e.g. the instance-interleaving cover leaves
+                       \* the read-only calls out, the harness reads every instance after every step anyway)
+          MaxParked,   \* how many further live trie instances (over the same DB) a history may keep
           Log(_, _)    \* how the observation variable is extended
 
 VARIABLES root,      \* in-memory root node, Absent when the trie is empty (tr.root == nil)
           db,        \* set of hashes stored in the trie DB
           map,       \* C01 oracle: the plain map (function from a set of keys to Vals)
           roots,     \* committed roots: set of [h |-> root hash, m |-> the map at that commit]
+          parked,    \* the other live instances created by Recreate and kept in use: sequence of [root, map].
+                     \* `root`/`map` are the instance the calls are currently addressed to (Switch changes it);
+                     \* all instances share db (one trieStorageManager) and maxLevel (Recreate inherits it)
           maxLevel,  \* maxTrieLevelInMemory of this trie (chosen in Init)
           hist       \* observation only
 
-vars  == <<root, db, map, roots, maxLevel, hist>>
-cvars == <<root, db, map, roots, maxLevel>>
+vars  == <<root, db, map, roots, parked, maxLevel, hist>>
+cvars == <<root, db, map, roots, parked, maxLevel>>
 
 
 -----------------------------------------------------------------------------
 (* Observation *)
-Proj == [m |-> MapPairs(map), nroots |-> Cardinality(roots)]
+Proj == [m |-> MapPairs(map), nroots |-> Cardinality(roots),
+         parked |-> [i \in 1..Len(parked) |-> MapPairs(parked[i].map)]]
 Rec(a, in, out) == [a |-> a, in |-> in, out |-> out, st |-> Proj']
 
 EmptyMap == [k \in {} |-> 0]
 
 Init ==
-    /\ root = Absent /\ db = {} /\ map = EmptyMap /\ roots = {}
+    /\ root = Absent /\ db = {} /\ map = EmptyMap /\ roots = {} /\ parked = <<>>
     /\ maxLevel \in MaxLevels
     /\ hist = <<[a |-> "New", in |-> [maxLevel |-> maxLevel], out |-> [x |-> 0],
-                 st |-> [m |-> {}, nroots |-> 0]]>>
+                 st |-> [m |-> {}, nroots |-> 0, parked |-> <<>>]]>>
 
 MapSet(k, v) == [x \in DOMAIN map \cup {k} |-> IF x = k THEN v ELSE map[x]]
 MapDel(k)    == Restrict(map, DOMAIN map \ {k})
@@ -74,25 +81,25 @@ DoDelete(k) ==
 
 Update(k, v) ==
     /\ IF v # 0 THEN DoInsert(k, v) ELSE DoDelete(k)
-    /\ UNCHANGED <<db, roots, maxLevel>>
+    /\ UNCHANGED <<db, roots, parked, maxLevel>>
     /\ hist' = Log(hist, Rec("Update", [k |-> k, v |-> v], [x |-> 0]))
 
 DeleteKey(k) ==
     /\ DoDelete(k)
-    /\ UNCHANGED <<db, roots, maxLevel>>
+    /\ UNCHANGED <<db, roots, parked, maxLevel>>
     /\ hist' = Log(hist, Rec("Delete", [k |-> k], [x |-> 0]))
 
 \* patriciaMerkleTrie.Get: resolves collapsed nodes on the path in place
 Get(k) ==
     LET r == IF root = Absent THEN [n |-> Absent, v |-> 0] ELSE TryGet(root, KeyBytesToHex(k)) IN
     /\ root' = r.n
-    /\ UNCHANGED <<db, map, roots, maxLevel>>
+    /\ UNCHANGED <<db, map, roots, parked, maxLevel>>
     /\ hist' = Log(hist, Rec("Get", [k |-> k], [v |-> r.v]))
 
 \* patriciaMerkleTrie.RootHash: caches the hashes; the value is observed as the pair (is-empty, contents)
 RootHash ==
     /\ root' = SetHashes(root)
-    /\ UNCHANGED <<db, map, roots, maxLevel>>
+    /\ UNCHANGED <<db, map, roots, parked, maxLevel>>
     /\ hist' = Log(hist, Rec("RootHash", [x |-> 0], [empty |-> HashOf(root) = Absent]))
 
 \* patriciaMerkleTrie.GetDirtyHashes: setRootHash, then the hashes of the dirty nodes reachable through dirty
@@ -100,10 +107,10 @@ RootHash ==
 DirtyHashesOf(r, ml) == IF r = Absent THEN {} ELSE CommitN(SetHashes(r), 0, ml).w
 GetDirtyHashes ==
     /\ root' = SetHashes(root)
-    /\ UNCHANGED <<db, map, roots, maxLevel>>
+    /\ UNCHANGED <<db, map, roots, parked, maxLevel>>
     /\ hist' = Log(hist, Rec("GetDirtyHashes", [x |-> 0], [n |-> Cardinality(DirtyHashesOf(root, maxLevel))]))
 
-\* patriciaMerkleTrie.Commit
+\* patriciaMerkleTrie.Commit (writes into the DB all instances share; touches no other instance)
 WillCommit == root # Absent /\ root.d
 CommitResult == CommitN(SetHashes(root), 0, maxLevel)
 Commit ==
@@ -112,7 +119,7 @@ Commit ==
             /\ root' = r.n /\ db' = db \cup r.w
             /\ roots' = roots \cup {[h |-> HashOf(r.n), m |-> map]}
        ELSE UNCHANGED <<root, db, roots>>
-    /\ UNCHANGED <<map, maxLevel>>
+    /\ UNCHANGED <<map, parked, maxLevel>>
     /\ hist' = Log(hist, Rec("Commit", [x |-> 0], [leaves |-> IF root' = Absent THEN {} ELSE SeqToSet(LeafPairs(HashOf(root'))),
                                                      nleaves |-> IF root' = Absent THEN 0 ELSE Len(LeafPairs(HashOf(root')))]))
 
@@ -120,27 +127,48 @@ Commit ==
 Recreate(r) ==
     /\ r.h \in db
     /\ root' = Decode(r.h) /\ map' = r.m
-    /\ UNCHANGED <<db, roots, maxLevel>>
+    /\ UNCHANGED <<db, roots, parked, maxLevel>>
     /\ hist' = Log(hist, Rec("Recreate", [m |-> MapPairs(r.m)], [x |-> 0]))
 
 \* Recreate(EmptyTrieHash)
 RecreateEmpty ==
     /\ root' = Absent /\ map' = EmptyMap
-    /\ UNCHANGED <<db, roots, maxLevel>>
+    /\ UNCHANGED <<db, roots, parked, maxLevel>>
     /\ hist' = Log(hist, Rec("Recreate", [m |-> {}], [x |-> 0]))
+
+\* Recreate(r) called on the current instance, which STAYS IN USE: the new instance is an independent view of the
+\* shared storage (loaded from the DB, nothing shared with the instance it was created from); later calls go to the
+\* new instance until a Switch.  r may be the current instance's own committed root or an older one.
+RecreateKeep(r) ==
+    /\ r.h \in db /\ Len(parked) < MaxParked
+    /\ parked' = Append(parked, [root |-> root, map |-> map])
+    /\ root' = Decode(r.h) /\ map' = r.m
+    /\ UNCHANGED <<db, roots, maxLevel>>
+    /\ hist' = Log(hist, Rec("RecreateKeep", [m |-> MapPairs(r.m)], [x |-> 0]))
+
+\* the following calls are addressed to the i-th other instance
+Switch(i) ==
+    /\ i \in 1..Len(parked)
+    /\ root' = parked[i].root /\ map' = parked[i].map
+    /\ parked' = [parked EXCEPT ![i] = [root |-> root, map |-> map]]
+    /\ UNCHANGED <<db, roots, maxLevel>>
+    /\ hist' = Log(hist, Rec("Switch", [i |-> i], [x |-> 0]))
 
 MinVal == CHOOSE v \in Vals : \A w \in Vals : v <= w
 ValsFor(k) == IF k \in RichKeys THEN Vals ELSE {MinVal}
 CommitAllowed == IF WillCommit THEN Cardinality(roots \cup {[h |-> HashOf(CommitResult.n), m |-> map]}) <= MaxCommits ELSE TRUE
 
 Next ==
-    \/ \E k \in Keys : \E v \in ValsFor(k) \cup {0} : Update(k, v)
-    \/ \E k \in Keys : DeleteKey(k) \/ Get(k)
-    \/ RootHash
-    \/ GetDirtyHashes
-    \/ (CommitAllowed /\ Commit)
-    \/ \E r \in roots : Recreate(r)
-    \/ RecreateEmpty
+    \/ "Update" \in Acts /\ \E k \in Keys : \E v \in ValsFor(k) \cup {0} : Update(k, v)
+    \/ "Delete" \in Acts /\ \E k \in Keys : DeleteKey(k)
+    \/ "Get" \in Acts /\ \E k \in Keys : Get(k)
+    \/ "RootHash" \in Acts /\ RootHash
+    \/ "GetDirtyHashes" \in Acts /\ GetDirtyHashes
+    \/ "Commit" \in Acts /\ CommitAllowed /\ Commit
+    \/ "Recreate" \in Acts /\ \E r \in roots : Recreate(r)
+    \/ "RecreateKeep" \in Acts /\ \E r \in roots : RecreateKeep(r)
+    \/ "RecreateEmpty" \in Acts /\ RecreateEmpty
+    \/ "Switch" \in Acts /\ \E i \in 1..MaxParked : Switch(i)
 
 Spec == Init /\ [][Next]_vars
 
@@ -175,39 +203,60 @@ DirtyClosed(n) ==
       [] n.t = "B" -> \A p \in DOMAIN n.ch : (~n.d => (n.ch[p].t = "H" \/ ~n.ch[p].d)) /\ DirtyClosed(n.ch[p])
       [] OTHER     -> TRUE
 
-TypeOK ==
-    /\ root = Absent \/ (root.t \in {"L", "E", "B"} /\ WellFormed(root))
-    /\ DOMAIN map \subseteq Keys /\ \A k \in DOMAIN map : map[k] \in Vals
-    /\ maxLevel \in MaxLevels
+\* every live instance: the one calls are addressed to, then the others
+Insts == <<[root |-> root, map |-> map]>> \o parked
+ForAllInst(P(_, _)) == \A i \in 1..Len(Insts) : P(Insts[i].root, Insts[i].map)
+
+TypeOKOf(r, m) ==
+    /\ r = Absent \/ (r.t \in {"L", "E", "B"} /\ WellFormed(r))
+    /\ DOMAIN m \subseteq Keys /\ \A k \in DOMAIN m : m[k] \in Vals
+TypeOK == ForAllInst(TypeOKOf) /\ maxLevel \in MaxLevels /\ Len(parked) <= MaxParked
 
 -----------------------------------------------------------------------------
-(* C01: the trie is the map *)
-ValueOf(k) == IF k \in DOMAIN map THEN map[k] ELSE 0
-Inv_C01_Get ==
-    \A k \in Keys : (IF root = Absent THEN 0 ELSE TryGet(root, KeyBytesToHex(k)).v) = ValueOf(k)
+(* C01: the trie is the map -- for every live instance *)
+ReadOf(r, k) == IF r = Absent THEN 0 ELSE TryGet(r, KeyBytesToHex(k)).v
+GetOk(r, m) == \A k \in Keys : ReadOf(r, k) = (IF k \in DOMAIN m THEN m[k] ELSE 0)
+Inv_C01_Get == ForAllInst(GetOk)
 \* enumerating the leaves yields exactly the live pairs, each once, with the original keys
-Inv_C01_Leaves ==
-    LET ls == LeafPairs(Expand(root)) IN
-    /\ \A i \in 1..Len(LeavesSeq(Expand(root), <<>>)) : HexOk(LeavesSeq(Expand(root), <<>>)[i].hex)
-    /\ Len(ls) = Cardinality(DOMAIN map)
-    /\ SeqToSet(ls) = MapPairs(map)
+LeavesOk(r, m) ==
+    LET ls == LeafPairs(Expand(r)) IN
+    /\ \A i \in 1..Len(LeavesSeq(Expand(r), <<>>)) : HexOk(LeavesSeq(Expand(r), <<>>)[i].hex)
+    /\ Len(ls) = Cardinality(DOMAIN m)
+    /\ SeqToSet(ls) = MapPairs(m)
+Inv_C01_Leaves == ForAllInst(LeavesOk)
 
 (* C02: shape and hash are functions of the contents *)
-Inv_C02_Shape == Expand(root) = Canon(map)
-Inv_C02_Hash  == HashOf(root) = Canon(map)          \* Absent (the empty-trie hash) iff the map is empty
-Inv_C02_CacheFresh == \A n \in MemNodes(root) : n.h # NoH => n.h = Expand(n)
+ShapeOk(r, m) == Expand(r) = Canon(m)
+HashOk(r, m)  == HashOf(r) = Canon(m)               \* Absent (the empty-trie hash) iff the map is empty
+CacheOk(r, m) == \A n \in MemNodes(r) : n.h # NoH => n.h = Expand(n)
+Inv_C02_Shape == ForAllInst(ShapeOk)
+Inv_C02_Hash  == ForAllInst(HashOk)
+Inv_C02_CacheFresh == ForAllInst(CacheOk)
 
-(* C03: everything committed stays recoverable *)
+(* C03: everything committed stays recoverable; every live instance is backed by the shared DB *)
 Inv_C03_RootsInDb == \A r \in roots : r.h = Canon(r.m) /\ Nodes(r.h) \subseteq db
-Inv_C03_MemoryBacked ==
-    /\ \A h \in MemRefs(root) : Nodes(h) \subseteq db            \* every collapsed reference can be resolved
-    /\ \A n \in MemNodes(root) : ~n.d => Nodes(Expand(n)) \subseteq db   \* clean nodes are in the DB
-    /\ DirtyClosed(root)
+BackedOk(r, m) ==
+    /\ \A h \in MemRefs(r) : Nodes(h) \subseteq db              \* every collapsed reference can be resolved
+    /\ \A n \in MemNodes(r) : ~n.d => Nodes(Expand(n)) \subseteq db    \* clean nodes are in the DB
+    /\ DirtyClosed(r)
+Inv_C03_MemoryBacked == ForAllInst(BackedOk)
+\* instances are independent views of the shared storage: a step addressed to one instance (anything but a Switch /
+\* RecreateKeep, which only re-address) leaves what every other instance holds and reads untouched
+Act_C03_Independent ==
+    [][LET e == hist'[Len(hist')] IN
+       e.a \notin {"Switch", "RecreateKeep"} => parked' = parked]_vars
+\* a trie recreated while the original stays in use starts with exactly the committed contents and hash
+Act_C03_RecreateKeep ==
+    [][LET e == hist'[Len(hist')] IN
+       e.a = "RecreateKeep" => /\ HashOf(root') = Canon(map') /\ Expand(root') = Canon(map')
+                               /\ [h |-> HashOf(root'), m |-> map'] \in roots
+                               /\ parked'[Len(parked')] = [root |-> root, map |-> map]]_vars
 \* GetDirtyHashes bookkeeping: the dirty hashes are exactly the nodes of the current trie that the DB lacks
 \* ... or already holds from an earlier commit of an equal subtree (re-created after a delete): superset form
-Inv_DirtyHashes ==
-    root # Absent => /\ Nodes(Canon(map)) \ db \subseteq DirtyHashesOf(root, maxLevel)
-                     /\ DirtyHashesOf(root, maxLevel) \subseteq Nodes(Canon(map))
+DirtyOk(r, m) ==
+    r # Absent => /\ Nodes(Canon(m)) \ db \subseteq DirtyHashesOf(r, maxLevel)
+                  /\ DirtyHashesOf(r, maxLevel) \subseteq Nodes(Canon(m))
+Inv_DirtyHashes == ForAllInst(DirtyOk)
 \* a Commit makes the current contents recoverable, Recreate gives back exactly the committed contents
 Act_C03_Commit   == [][(db' # db \/ roots' # roots) => (Nodes(Canon(map')) \subseteq db' /\ map' = map)]_cvars
 Act_C03_Recreate ==
